@@ -103,7 +103,11 @@ Definition check_step (cs : cellsys lz) (s : st) (sp : step) : option st :=
   | Err _ => None
   | Ok s' =>
       if check_snapshot cs s' (st_snap sp)
-         && instates_eqb (cell_veto_tagger s') (st_veto sp)
+         (* without walker items the real CellVetoEventHandler cannot be built: the run has no cell-veto tagger *)
+         && (match veto_domain list_Z_eqb cs with
+             | [] => match st_veto sp with [] => true | _ => false end
+             | _ => instates_eqb (cell_veto_tagger s') (st_veto sp)
+             end)
          && instates_eqb (cell_bounding_tagger list_Z_eqb cs s') (st_bounding sp)
          && instates_eqb (excluded_cells_tagger list_Z_eqb cs s') (st_nearby sp)
          && instates_eqb (surplus_cells_tagger s') (st_surplus sp)
